@@ -5,6 +5,8 @@
 
 mod checks;
 mod eng_codec;
+mod eng_flood;
+mod heapmeter;
 mod eng_hpack;
 mod eng_pair;
 mod eng_raw;
@@ -20,6 +22,9 @@ mod sim_raw;
 mod tapx;
 mod tape;
 mod util;
+
+#[global_allocator]
+static ALLOC: heapmeter::Meter = heapmeter::Meter;
 
 fn main() {
     let args: Vec<String> = std::env::args().collect();
